@@ -30,6 +30,12 @@ def _requote_undecodable_bytes(error):
 
 codecs.register_error("ural_requote", _requote_undecodable_bytes)
 
+C1_CONTROL_CHARS_RE = re.compile("[\x80-\x9f]")
+
+
+def _requote_match(match):
+    return quote(match.group(0))
+
 
 def _unquote_impl(string, only_printable=False, unsafe=None):
     string = string.encode("utf-8")
@@ -70,6 +76,10 @@ def _generate_unquoted_parts(string, only_printable=False, unsafe=None):
         c = _unquote_impl(m, only_printable=only_printable, unsafe=unsafe).decode(
             "utf-8", "ural_requote"
         )
+
+        # NOTE: C1 control characters are not printable either
+        if only_printable:
+            c = C1_CONTROL_CHARS_RE.sub(_requote_match, c)
 
         yield c
 
